@@ -23,6 +23,13 @@ EXTRA_FILES = {
 }
 
 
+# quantified tests that were read but are NOT taken as reference (a later correction of them must not be reported as a flip)
+NOT_REFERENCE = {
+    ("bionumpy.streams.groupby_func", "get_changes", "(array[1:])!=(array[:-1])"): "generic n-d branch requires ALL columns of a row to differ; `any` would be the expected test",
+    ("bionumpy.io.dump_csv", "optional_ints_to_strings", "number"): "`np.all(number) == np.nan` is never true; the test has no effect",
+}
+
+
 def anchor_modules(prop: str):
     files = []
     with open(_PROPS) as f:
@@ -57,6 +64,8 @@ def make_rule(prop: str):
                 nf += 1
                 now_q = normalize.quantifier_sites(fi.node)
                 for q, neg, arg in ref.get("quants", []):
+                    if (mod, qn, arg) in NOT_REFERENCE:
+                        continue
                     nq += 1
                     same = [x for x in now_q if x[2] == arg and x[1] == neg]
                     if not same:
